@@ -573,8 +573,26 @@ class DoctestParser:
                 return intervals
             intervals = balanced_intervals(lines)
             interval_starts = {t[0] for t in intervals}
+
+            def _statement_fits(i):
+                # A statement cannot stand between a decorator and its
+                # definition, nor in front of a clause that continues the
+                # compound statement above it; a comment can.
+                for prev in reversed(lines[:i]):
+                    if prev.strip() and not prev.startswith('#'):
+                        if prev.startswith('@'):
+                            return False
+                        break
+                for nxt in lines[i + 1:]:
+                    if nxt.strip() and not nxt.startswith('#'):
+                        if re.match(r'(else|elif|except|finally)\b', nxt):
+                            return False
+                        break
+                return True
+
             for i, line in enumerate(lines):
-                if i in interval_starts and line.startswith('#'):
+                if (i in interval_starts and line.startswith('#') and
+                        _statement_fits(i)):
                     # Replace any comment that is not within an interval with a
                     # statement, so ast.parse will record its line number
                     yield '_._ = None'
